@@ -25,6 +25,9 @@ sessions (`initiate_plaintext`; they are told apart by the ephemeral node id, wh
 `port`), the payload. A secure session enters the table by `establish` — the net effect of
 `ReservedSession::reserve_now` + `update` + `complete` (modelled step by step for C20); while
 reserved it is invisible to the receive path (`is_for_rx` is false) and carries no exchange.
+Sessions are added by `addSess` = `Sessions::add` after the repair of finding `C10-session-id-wrap`
+(`Table.add` of `Model/Transport`, shared with other properties, models the allocation before it; the
+two differ only when the 28-bit id counter has wrapped onto an id that is still in use).
 Import-free apart from `Model/Transport`.
 -/
 namespace RxPath
@@ -135,6 +138,21 @@ def RoleSt.isOwned : RoleSt → Bool
   | .io | .ro => true
   | _ => false
 
+/-- `next_sess_unique_id` advanced by one: 28 bits (the upper 4 bits of an `ExchangeId` hold the slot index) -/
+def incUid (c : Nat) : Nat := if c + 1 > 0x0fffffff then 0 else c + 1
+
+/-- the loop of the repaired `Sessions::add`: the first id from `c` on that no session of the table uses -/
+def skipLive (live : List Nat) : Nat → Nat → Nat
+  | 0, c => c
+  | fuel + 1, c => if live.all (· != c) then c else skipLive live fuel (incUid c)
+
+/-- `Sessions::add` after the repair of finding `C10-session-id-wrap`: the internal id is the first one
+from `next_sess_unique_id` on that no live session has (the 28-bit counter wraps; before the repair a
+wrapped counter handed out the id of a session that was still alive); everything else as `Table.add`.
+(The loop needs at most as many steps as there are sessions.) -/
+def addSess (t : Table) (ctr : Nat) (reserved : Bool) (now port : Nat) : Table × Except Err Nat :=
+  Table.add { t with nextUid := skipLive (t.sessions.map (·.uid)) t.sessions.length t.nextUid } ctr reserved now port
+
 /-- `write_evict_some_session_packet`: (table, evicted uid) -/
 def evictSome (t : Table) (now : Nat) : Table × Option Nat :=
   match t.evictionUid now with
@@ -173,7 +191,7 @@ def arrive (n : Node) (m : Msg) (rnd : Nat) : Node × Out :=
     | some s => finishArrive n g.1 s m
     | none =>
       if m.sid = 0 ∧ m.kind = .newSess then
-        let a := g.1.add rnd false n.now m.port
+        let a := addSess g.1 rnd false n.now m.port
         match a.2 with
         | .ok uid =>
           match a.1.sess uid with
@@ -263,7 +281,7 @@ from `get_next_sess_id` -/
 def establish (n : Node) (port : Nat) (mode : Mode) (ctr : Nat) : Node × Out :=
   if mode.enc = false then (n, .blocked) else
   let a := n.t.nextSessId
-  let b := a.1.add ctr false n.now port
+  let b := addSess a.1 ctr false n.now port
   match b.2 with
   | .ok uid =>
     match b.1.sess uid with
